@@ -82,7 +82,8 @@ def tlc(spec, cfg=None, env=None, workers=1, timeout=600, xmx='3g', xss='1g', ex
     os.makedirs(md, exist_ok=True)
     # many single-worker JVMs run side by side: a parallel collector with 16 GC threads each thrashes
     gc = '-XX:+UseParallelGC' if workers > 2 else '-XX:+UseSerialGC'
-    cmd = ['timeout', str(int(timeout)), 'java', gc, '-XX:TieredStopAtLevel=4', '-Xmx' + xmx, '-Xss' + xss]
+    # TLC unpacks its standard modules into java.io.tmpdir on every start: keep that inside the (removed) metadir
+    cmd = ['timeout', str(int(timeout)), 'java', gc, '-XX:TieredStopAtLevel=4', '-Xmx' + xmx, '-Xss' + xss, '-Djava.io.tmpdir=' + md]
     if deque:
         cmd.append('-Dtlc2.tool.queue.IStateQueue=StateDeque')
     cmd += ['-cp', TLA_CP, 'tlc2.TLC', '-workers', str(workers), '-metadir', md, '-cleanup',
